@@ -759,12 +759,31 @@ class C06Engine(object):
             text, meta = make_variant(rng, self.base_yaml, index)
             head, blocks, tail = split_decls(text)
             blocks = [b for b in blocks if decl_name(b) not in CFI_UNSUPPORTED]
-            head = head.replace("options:\n", "options:\n  F_CFI: true\n", 1)
+            mixed = index % 16 == 4  # (the other F_CFI variants, index % 16 == 12, set it for the whole library)
+            if mixed:
+                # the option given declaration by declaration: both protocols in one library
+                turn = [rng.randrange(2)]
+
+                def with_cfi(b):
+                    # alternating along the (shuffled) order, so that declarations of the same shape
+                    # meet both protocols, in both orders over the variants
+                    turn[0] += 1
+                    if b.startswith(("- decl: class", "- decl: template", "- decl: struct", "- decl: namespace")) \
+                            or turn[0] % 2:
+                        return b
+                    if "\n  options:\n" in b:
+                        return b.replace("\n  options:\n", "\n  options:\n    F_CFI: true\n", 1)
+                    first, rest = b.split("\n", 1)
+                    return first + "\n  options:\n    F_CFI: true\n" + rest
+                blocks = [with_cfi(b) for b in blocks]
+            else:
+                head = head.replace("options:\n", "options:\n  F_CFI: true\n", 1)
             text = head + "".join(blocks) + tail
             d = os.path.join(campaign.scratch_dir(), "c06-v%d" % index)
             b = Build(d, text, ("f",), "v%d" % index)
             b.have = set(decl_name(x) for x in blocks)
-            meta = dict(meta, variant="cfi%d" % index, F_CFI=True, subset=sorted(b.have))
+            meta = dict(meta, variant="cfi%d" % index, F_CFI="per declaration" if mixed else "library",
+                        subset=sorted(b.have))
         elif index % 4 == 3:
             # every fourth variant wraps only a subset of the declarations
             text, meta = make_variant_subset(rng, self.base_yaml, index)
